@@ -559,3 +559,142 @@ int cmd_schedules(const Args& a)
 }
 
 }  // namespace vh
+
+// ---------------------------------------------------------------- C10: boundary sessions through the real UCI front end
+namespace vh
+{
+// a legal game of the requested length from the start position: reversible shuffling with an irreversible move (pawn move or
+// capture) before the 75-move rule would end the game, never reaching a fivefold repetition.  Generator only: the RulesTrace
+// monitor validates that the produced game is legal and not over.
+int cmd_long_game(const Args& a)
+{
+    init_engine();
+    const int plies = (int)a.i("plies", 1000);
+    std::mt19937_64 rng(a.i("seed", 1));
+    Position p(a.s("fen", Position::STARTPOS_FEN));
+    std::vector<std::string> ms;
+    std::map<std::string, int> seen;
+    auto key4 = [&](Position& q) { std::string f = q.fen(); size_t sp = 0; for (int i = 0; i < 4; ++i) sp = f.find(' ', sp + 1); return f.substr(0, sp); };
+    seen[key4(p)] = 1;
+    // NOTE: positions are rebuilt from the start when the engine's own history table would overflow (the generator must not crash
+    // on the very defect it is meant to exhibit): it plays on a fresh Position every 600 plies, tracking repetition itself.
+    int since_reload = 0;
+    for (int ply = 0; ply < plies; ++ply)
+    {
+        if (since_reload >= 600) { p = Position(p.fen()); since_reload = 0; }
+        MoveVec mv;
+        mv.gen(p);
+        if (mv.n == 0) break;
+        std::vector<Move> irr, rev;
+        for (int i = 0; i < mv.n; ++i)
+        {
+            Move m = mv.list[i];
+            bool pawn = castling(m) == NO_CASTLING && make_piece_kind(p.piece_at(from(m))) == PAWN;
+            bool cap = p.move_is_capture(m);
+            (pawn || cap ? irr : rev).push_back(m);
+        }
+        Move chosen = NO_MOVE;
+        bool need_irr = p.half_moves() >= 100 + (rng() % 40);
+        // keep material: prefer quiet pawn moves as the irreversible ones, captures only when nothing else
+        if (need_irr && !irr.empty())
+        {
+            std::vector<Move> quietp;
+            for (Move m : irr) if (!p.move_is_capture(m) && promotion(m) == NO_PIECE_KIND) quietp.push_back(m);
+            auto& pool = quietp.empty() ? irr : quietp;
+            chosen = pool[rng() % pool.size()];
+        }
+        else
+        {
+            auto& pool = rev.empty() ? irr : rev;
+            for (int t = 0; t < 30 && chosen == NO_MOVE; ++t)
+            {
+                Move m = pool[rng() % pool.size()];
+                MoveInfo mi = p.do_move(m);
+                MoveVec r;
+                r.gen(p);
+                bool ok = r.n > 0 && seen[key4(p)] < 3 && p.enough_material();
+                p.undo_move(m, mi);
+                if (ok) chosen = m;
+            }
+            if (chosen == NO_MOVE) chosen = mv.list[rng() % uint64_t(mv.n)];
+        }
+        if (p.half_moves() >= 149) break;
+        ms.push_back(p.uci(chosen));
+        p.do_move(chosen);
+        since_reload++;
+        seen[key4(p)]++;
+        if (seen[key4(p)] >= 5) break;
+    }
+    FILE* o = fopen(a.s("out").c_str(), "w");
+    for (auto& m : ms) fprintf(o, "%s\n", m.c_str());
+    fclose(o);
+    fprintf(stderr, "long-game: %zu plies, final %s\n", ms.size(), p.fen().c_str());
+    return 0;
+}
+
+// run a UCI session script through the real Uci::loop (reader thread) with real search threads.
+// script lines are sent verbatim; after every `go` the driver waits for the bestmove line (a well-formed GUI does).
+int cmd_uci_session(const Args& a)
+{
+    init_engine();
+    std::vector<std::string> script;
+    {
+        std::ifstream f(a.s("script"));
+        std::string l;
+        while (std::getline(f, l)) if (!l.empty()) script.push_back(l);
+    }
+    const int wait_ms = (int)a.i("wait-ms", 120000);
+    InBuf in;
+    OutBuf out;
+    auto* oc = std::cout.rdbuf(&out);
+    auto* ic = std::cin.rdbuf(&in);
+    SA.reset();
+    SA.visit_cap = 2000000000L;
+    SA.unwind_bound = 2000000000L;
+    engine::verif::sink.store(sink_a);
+    Uci& uci = the_uci();
+    std::thread reader([&] { uci.loop(); });
+    long gos = 0, answered = 0;
+    bool hung = false;
+    for (auto& l : script)
+    {
+        int before = out.count("bestmove");
+        in.push(l);
+        if (l.rfind("go", 0) == 0)
+        {
+            gos++;
+            auto t0 = std::chrono::steady_clock::now();
+            while (out.count("bestmove") <= before)
+            {
+                std::this_thread::sleep_for(std::chrono::milliseconds(2));
+                if (std::chrono::duration_cast<std::chrono::milliseconds>(std::chrono::steady_clock::now() - t0).count() > wait_ms) { hung = true; break; }
+            }
+            if (hung) break;
+            answered++;
+            std::this_thread::sleep_for(std::chrono::milliseconds(5));
+        }
+        else
+        {
+            // commands are handled synchronously by the reader; isready is the barrier
+            in.push("isready");
+            int rb = out.count("readyok");
+            auto t0 = std::chrono::steady_clock::now();
+            while (out.count("readyok") <= rb - 0 && out.count("readyok") == rb)
+            {
+                std::this_thread::sleep_for(std::chrono::milliseconds(1));
+                if (std::chrono::duration_cast<std::chrono::milliseconds>(std::chrono::steady_clock::now() - t0).count() > wait_ms) { hung = true; break; }
+            }
+            if (hung) break;
+        }
+    }
+    if (hung) { std::cout.rdbuf(oc); std::cin.rdbuf(ic); fprintf(stderr, "SESSION HUNG\n"); _exit(7); }
+    in.push("quit");
+    reader.join();
+    engine::verif::sink.store(nullptr);
+    std::cout.rdbuf(oc);
+    std::cin.rdbuf(ic);
+    printf("{\"lines\":%zu,\"gos\":%ld,\"answered\":%ld,\"final_fen\":%s,\"history_counter\":%d,\"max_depth_index\":%ld,\"max_ply\":%ld,\"visits\":%ld}\n", script.size(), gos,
+           answered, jstr(uci.position.fen()).c_str(), uci.position._history_counter, SA.max_depth_index, SA.max_ply, SA.visits);
+    return 0;
+}
+}  // namespace vh
